@@ -92,6 +92,18 @@ L['C14'] = dict(modules=['Schc.Properties.C14'], level='proof', technique='Lean 
               T('C14_sctp_progress', 'full', 'each SCTP chunk consumes >= 32 bits'),
               T('C14_registry', 'full', 'every next-protocol number chained on has a registered parser (regenerated tables)')],
     level_text='Proved for every bit string of any length and alignment: with the linear fuel |b| + 2 the model never answers `hang` and never any error but ParserError. "Promptly" is a step bound (iterations <= |b|/8 + 1), not wall-clock time; the harness additionally runs the real parsers under a watchdog.')
+
+L['C09'] = dict(modules=['Schc.Properties.C09'], level='proof', technique='Lean 4: loop invariants for the one\'s-complement fold, xor-linearity of CRC-32c division, `decide +kernel` on the regenerated CRC table',
+    theorems=[T('C09_fold', 'full', 'add-then-fold-each-step loop = RFC 1071 one\'s-complement sum (arithmetic, all word lists)'),
+              T('C09_ipv4_header_checksum', 'full', 'IPv4 header checksum = complement of the sum of the header words; 0x0000 kept'),
+              T('C09_udp_checksum', 'full', 'UDP checksum = complement of the sum over pseudo-header + UDP header + zero-padded payload; 0 -> 0xFFFF'),
+              T('C09_pseudo_headers', 'full', 'pseudo-header layouts of RFC 8200 §8.1 and RFC 768'),
+              T('C09_lengths', 'full', 'IPv6 payload length, IPv4 total length, UDP length in octets'),
+              T('C09_crc_table', 'full', 'the 256-entry table in crc.py = eight reflected division steps by 0x82F63B78 (kernel-evaluated on the regenerated table)'),
+              T('C09_crc_loop', 'full', 'table-driven byte loop = bit-by-bit CRC-32c, every buffer'),
+              T('C09_sctp', 'full', 'SCTP checksum: init all ones, final complement, stored low byte first'),
+              T('C09_order', 'full', 'compute entries already in dependency order are run in that order')],
+    level_text='Proved over the model of the compute functions for all inputs. Where the code locates its inputs by relative position in the rebuilt field list (pos-2, pos-9 .. pos+3, search for the source address), the theorems are stated over those same positions; that a rule in protocol order puts the right fields there, and that a packet with correct fields is reproduced bit for bit, is checked on every run by the compute and schc correspondence streams against independent RFC 1071 / 768 / 8200 / 9260 implementations (constructed wrap-around, double-carry, 0x0000 and 0xFFFF cases).')
 for k in L:
     L[k]['level_note'] = NOTE
     L[k]['design_ref'] = 'DESIGN.md §6 ' + k
